@@ -94,10 +94,10 @@ Proof.
   eapply keeps_trans; eassumption.
 Qed.
 
-Lemma append_range_ref : forall l s, inv s -> get_size s + zlen l <= cap s ->
-  refines s (append_range_m s l) (contents s ++ l).
+Lemma push_back_loop_ref : forall l s, inv s -> get_size s + zlen l <= cap s ->
+  refines s (push_back_loop_m s l) (contents s ++ l).
 Proof.
-  induction l as [|x l IH]; intros s I Hfit; cbn [append_range_m].
+  induction l as [|x l IH]; intros s I Hfit; cbn [push_back_loop_m].
   - exists s. split; [reflexivity|]. split; [apply keeps_refl; exact I|]. symmetry. apply app_nil_r.
   - assert (Hl : zlen (x :: l) = zlen l + 1) by (unfold zlen; cbn [length]; lia).
     pose proof (zlen_nonneg l) as Hnn.
@@ -110,6 +110,20 @@ Proof.
     exists s'. split; [exact E|]. split; [eapply keeps_trans; eassumption|].
     rewrite C, C1, <- app_assoc. reflexivity.
 Qed.
+
+(* both iterator categories: the up-front check of the random access path passes whenever the range fits *)
+Lemma append_range_cat_ref ra l s : inv s -> get_size s + zlen l <= cap s ->
+  refines s (append_range_cat_m ra s l) (contents s ++ l).
+Proof.
+  intros I Hfit. pose proof I as (Hc & _ & Hs & _). unfold cap_ok in Hc. unfold append_range_cat_m. destruct ra.
+  - rewrite (sz_id (cap s - get_size s)) by lia. replace (zlen l <=? cap s - get_size s) with true by lia.
+    apply push_back_loop_ref; assumption.
+  - apply push_back_loop_ref; assumption.
+Qed.
+
+Lemma append_range_ref l s : inv s -> get_size s + zlen l <= cap s ->
+  refines s (append_range_m s l) (contents s ++ l).
+Proof. apply append_range_cat_ref. Qed.
 
 (** * resize *)
 Lemma resize_ref s count ch : inv s -> 0 <= count <= cap s ->
@@ -166,6 +180,30 @@ Proof.
   - eexists. split; [reflexivity|]. split; [apply K2|]. split; [rewrite (keeps_cap _ _ K2); exact C1|].
     split; [rewrite (keeps_ckind _ _ K2), (keeps_ckind _ _ K1); exact K0|].
     unfold contents. rewrite G2, G1. cbn [with_buf buf]. change (take len src) with l. apply firstn_n_app. unfold zlen in Hll. lia.
+Qed.
+
+(* the range constructor: value-initialised storage + append(first, last) *)
+Lemma contents_default c ck : cap_ok c -> contents (default_str c ck) = [].
+Proof.
+  intros Hc. destruct (inv_default c ck Hc) as (I0 & G0). pose proof (contents_len _ I0) as L. rewrite G0 in L.
+  destruct (contents (default_str c ck)); [reflexivity|]. unfold zlen in L. cbn [length] in L. lia.
+Qed.
+
+Lemma ctor_range_ref ra c ck l : cap_ok c -> zlen l <= c ->
+  exists s', ctor_range_m ra c ck l = Ok s' /\ inv s' /\ cap s' = c /\ ckind s' = ck /\ contents s' = l.
+Proof.
+  intros Hc Hfit. destruct (inv_default c ck Hc) as (I0 & G0). destruct (default_cap c ck) as (C0 & K0).
+  destruct (append_range_cat_ref ra l (default_str c ck) I0) as (s' & E & (I' & C' & K') & Cn).
+  { rewrite G0, C0. lia. }
+  exists s'. unfold ctor_range_m. rewrite contents_default in Cn by exact Hc. cbn [app] in Cn.
+  split; [exact E|]. split; [exact I'|]. split; [congruence|]. split; [congruence|exact Cn].
+Qed.
+
+Lemma ctor_range_contract c ck l : cap_ok c -> c < zlen l -> ctor_range_m true c ck l = Contract.
+Proof.
+  intros Hc Hbig. destruct (inv_default c ck Hc) as (I0 & G0). destruct (default_cap c ck) as (C0 & K0).
+  unfold cap_ok in Hc. unfold ctor_range_m, append_range_cat_m. rewrite G0, C0. rewrite sz_id by lia.
+  replace (zlen l <=? c - 0) with false by lia. reflexivity.
 Qed.
 
 Lemma ctor_fill_ref c ck count ch : cap_ok c -> 0 <= count <= c ->
